@@ -251,3 +251,60 @@ func (c *cursor) SkipEmptyBad() bool {
 		c.cur++
 	}
 }
+
+// want:DR.SHORT a single Read is taken as the whole chunk.
+func SniffOneRead(r io.Reader) ([]byte, error) {
+	chunk := make([]byte, 512)
+	n, err := r.Read(chunk)
+	if n == 0 {
+		return nil, err
+	}
+	return chunk[:n], nil
+}
+
+// clean:DR.SHORT
+func ReadByteWise(r io.Reader) ([]byte, error) {
+	var data []byte
+	for {
+		var next [1]byte
+		if n, err := r.Read(next[:]); n == 0 {
+			return data, err
+		}
+		data = append(data, next[0])
+		if len(data) > 10 {
+			return data, nil
+		}
+	}
+}
+
+// clean:DR.SHORT
+func ReadLoop(r io.Reader) ([]byte, error) {
+	buf := make([]byte, 64)
+	got := 0
+	for got < len(buf) {
+		n, err := r.Read(buf[got:])
+		got += n
+		if err != nil {
+			return buf[:got], err
+		}
+	}
+	return buf, nil
+}
+
+// want:DR.LINE isPrefix dropped.
+func LineDropPrefix(r *bufio.Reader) (string, error) {
+	raw, _, err := r.ReadLine()
+	return string(raw), err
+}
+
+// clean:DR.LINE
+func LineKeepPrefix(r *bufio.Reader) (string, error) {
+	var all []byte
+	for {
+		raw, more, err := r.ReadLine()
+		all = append(all, raw...)
+		if err != nil || !more {
+			return string(all), err
+		}
+	}
+}
